@@ -173,9 +173,38 @@ Definition fun_keys (m : omodel) : list string :=
 
 Definition wf_fuel (m : omodel) : nat := S (length (om_graphs m)).
 
+(* function calls are not recursive (onnx.checker: "Cycle detected in model-local function references") *)
+Section Calls.
+  Variable m : omodel.
+  (* the nodes of a scope together with the nodes of its nested bodies, to nesting depth `fuel` *)
+  Fixpoint nodes_deep (fuel : nat) (ns : list onode) : list onode :=
+    match fuel with
+    | O => ns
+    | S f => flat_map (fun n => n :: flat_map (fun gid => match graph_by_id m gid with
+                                                        | Some g => nodes_deep f (og_nodes g)
+                                                        | None => [] end) (node_subgraph_ids n)) ns
+    end.
+  Definition callees (f : ofunction) : list ofunction :=
+    flat_map (fun n => find_fun m (on_domain n) (on_op n)) (nodes_deep (wf_fuel m) (of_nodes f)).
+  Fixpoint call_depth_ok (k : nat) (f : ofunction) : bool :=
+    match k with O => false | S k' => forallb (call_depth_ok k') (callees f) end.
+  (* every chain of calls starting in f is shorter than k *)
+  Fixpoint CallDepth (k : nat) (f : ofunction) : Prop :=
+    match k with O => False | S k' => forall g, In g (callees f) -> CallDepth k' g end.
+  Lemma call_depth_ok_sound : forall k f, call_depth_ok k f = true -> CallDepth k f.
+  Proof.
+    induction k as [|k IH]; intros f H; cbn in H |- *; [discriminate|].
+    intros g Hg. rewrite forallb_forall in H. apply IH. now apply H.
+  Qed.
+End Calls.
+
+Definition fn_acyclic (m : omodel) : bool :=
+  forallb (call_depth_ok m (S (length (om_functions m)))) (om_functions m).
+
 Definition wf_model (m : omodel) : bool :=
   chk_graph m (node_ok m [om_opsets m]) (wf_fuel m) [] 0 &&
-  forallb (fun f => chk_function m (node_ok m [of_opsets f; om_opsets m]) (wf_fuel m) f) (om_functions m).
+  forallb (fun f => chk_function m (node_ok m [of_opsets f; om_opsets m]) (wf_fuel m) f) (om_functions m) &&
+  fn_acyclic m.
 
 (* ------------------------------------------------------------------ the declarative specification *)
 Section Spec.
@@ -219,9 +248,10 @@ Section Spec.
 End Spec.
 
 Definition WF (m : omodel) : Prop :=
-  exists d,
+  (exists d,
     WFGraph m (NodeOK m [om_opsets m]) d [] 0 /\
-    forall f, In f (om_functions m) -> WFFunction m (NodeOK m [of_opsets f; om_opsets m]) d f.
+    forall f, In f (om_functions m) -> WFFunction m (NodeOK m [of_opsets f; om_opsets m]) d f) /\
+  (exists k, forall f, In f (om_functions m) -> CallDepth m k f).
 
 (* ------------------------------------------------------------------ soundness of the validator *)
 Section Sound.
@@ -291,11 +321,13 @@ End Sound.
 
 Theorem wf_model_sound m : wf_model m = true -> WF m.
 Proof.
-  unfold wf_model, WF. intro H. apply andb_prop in H as [H1 H2].
-  exists (wf_fuel m). split.
-  - eapply chk_graph_sound; [|exact H1]. intros n Hn. now apply node_ok_sound.
-  - intros f Hf. rewrite forallb_forall in H2. specialize (H2 f Hf).
-    eapply chk_function_sound; [|exact H2]. intros n Hn. now apply node_ok_sound.
+  unfold wf_model, WF. intro H. apply andb_prop in H as [H H3]. apply andb_prop in H as [H1 H2]. split.
+  - exists (wf_fuel m). split.
+    + eapply chk_graph_sound; [|exact H1]. intros n Hn. now apply node_ok_sound.
+    + intros f Hf. rewrite forallb_forall in H2. specialize (H2 f Hf).
+      eapply chk_function_sound; [|exact H2]. intros n Hn. now apply node_ok_sound.
+  - exists (S (length (om_functions m))). intros f Hf. apply call_depth_ok_sound.
+    unfold fn_acyclic in H3. rewrite forallb_forall in H3. now apply H3.
 Qed.
 
 (* ------------------------------------------------------------------ positional reading of WFNodes *)
@@ -616,7 +648,7 @@ Theorem WF_eval_never_fails m : WF m ->
     (forall f args, In f (om_functions m) ->
        exists vs, eval_function V m op_out body_arg init_val fuel f args = Ok vs).
 Proof.
-  intros [d [Hg Hf]]. exists d. intros V op_out body_arg init_val. split.
+  intros [[d [Hg Hf]] _]. exists d. intros V op_out body_arg init_val. split.
   - intro args. eapply eval_graph_ok; [exact Hg|]. intros x Hx. destruct Hx.
   - intros f args Hin. eapply eval_function_ok. now apply Hf.
 Qed.
@@ -627,7 +659,8 @@ Corollary wf_model_eval_never_fails m : wf_model m = true ->
     (forall f args, In f (om_functions m) ->
        exists vs, eval_function V m op_out body_arg init_val (wf_fuel m) f args = Ok vs).
 Proof.
-  intros H V op_out body_arg init_val. unfold wf_model in H. apply andb_prop in H as [H1 H2]. split.
+  intros H V op_out body_arg init_val. unfold wf_model in H. apply andb_prop in H as [H _].
+  apply andb_prop in H as [H1 H2]. split.
   - intro args. eapply eval_graph_ok with (outer := @nil string); [|intros x Hx; destruct Hx].
     eapply chk_graph_sound; [|exact H1]. intros n Hn. exact (node_ok_sound _ _ _ Hn).
   - intros f args Hin. rewrite forallb_forall in H2. specialize (H2 f Hin).
@@ -719,7 +752,11 @@ End Diag.
 Definition wf_first_bad (m : omodel) : option string :=
   match diag_graph m [om_opsets m] (wf_fuel m) [] 0 with
   | Some e => Some e
-  | None => first_some (fun f => diag_function m [of_opsets f; om_opsets m] (wf_fuel m) f) (om_functions m)
+  | None =>
+      match first_some (fun f => diag_function m [of_opsets f; om_opsets m] (wf_fuel m) f) (om_functions m) with
+      | Some e => Some e
+      | None => if fn_acyclic m then None else Some "recursive-function-calls|"
+      end
   end.
 
 (* ------------------------------------------------------------------ sanity of the converter output (trusted base):
